@@ -322,7 +322,8 @@ def cell_typelab(cell):
                     args[i] = ('w', COV, a) if a[0] != 'w' else a[2]
                 target = ('c', target[1], tuple(args))
             same_type = True
-            if rng.random() < 0.25:
+            r = rng.random()
+            if r < 0.25:
                 # supertype mode: a subclass instantiation whose supertype chain reaches the pattern's class
                 subs = [x for x in G + [y for y in U if y[0] == 'c']
                         if x != target and terms.refsub3(x, target, T) is True and x[1] != target[1]]
@@ -330,6 +331,22 @@ def cell_typelab(cell):
                     target = rng.choice(subs)
                     same_type = False
                     kind += '+subclass'
+            elif r < 0.45:
+                # supertype mode, near miss: the head stays, ONE NESTED class-typed argument is replaced by an
+                # instantiation of a proper subclass (supertype matching applies to the target itself, never to
+                # its type arguments); sometimes the target is left as it is (mode flag alone)
+                same_type = False
+                kind += '+supertype-mode'
+                args = list(target[2])
+                idx = [i for i, a in enumerate(args) if a[0] == 'c']
+                if idx and rng.random() < 0.8:
+                    i = rng.choice(idx)
+                    subs = [x for x in G + [y for y in U if y[0] == 'c']
+                            if x[1] != args[i][1] and terms.refsub3(x, args[i], T) is True]
+                    if subs:
+                        args[i] = rng.choice(subs)
+                        target = ('c', target[1], tuple(args))
+                        kind += '+nested-subclass'
             try:
                 rt, rp = lab.real(target), lab.real(pattern)
             except Exception as e:
